@@ -45,6 +45,7 @@ Print Assumptions C06_refs_balanced.
 Theorem C06_analysis_deterministic : forall c t r l (st : list (val nat)),
   trickery c t r l st = trickery c t r l st /\ referents c t l st = referents c t l st.
 Proof. split; reflexivity. Qed.
+Print Assumptions C06_analysis_deterministic.
 
 Example C06_example_idempotent_nontrivial :
   let e := {| modules := [1; 2; 3]; detect := true |} in
